@@ -1029,7 +1029,15 @@ func runC35(c *an.Ctx) {
 				}
 			}
 		} else {
-			for _, r := range an.Roots(sl.High, nil) {
+			highRoots := an.Roots(sl.High, nil)
+			for i := 0; i < len(highRoots); i++ { // look through min(count, len(...))
+				if mc, ok := an.IsBuiltinCall(highRoots[i], "min"); ok {
+					for _, a := range mc.Call.Args {
+						highRoots = append(highRoots, an.Roots(a, nil)...)
+					}
+				}
+			}
+			for _, r := range highRoots {
 				if b, ok := r.(*ssa.BinOp); ok && b.Op == token.ADD && (isOne(b.Y) || isOne(b.X)) {
 					incs[b] = true
 				}
@@ -1481,6 +1489,65 @@ func runC35Wantlist(c *an.Ctx) {
 	if !c.Need(kBlock != nil && kHave != nil, "pb.Message_Wantlist_Block / Message_Wantlist_Have constants") {
 		return
 	}
+	// the exported entry points record each key with the type their signature promises:
+	// AddWants(wantBlocks, wantHaves) -> Block / Have, AddBroadcastWantHaves(wantHaves) -> Have
+	if R := c35R; R != nil && R.add != nil {
+		type lists map[*ssa.Parameter]string
+		var visit func(fn *ssa.Function, ls lists, api string, depth int)
+		visit = func(fn *ssa.Function, ls lists, api string, depth int) {
+			for _, call := range an.AllCalls(fn) {
+				g := an.Callee(call).Static
+				if g == nil {
+					continue
+				}
+				args := call.Common().Args
+				if g == R.add && len(args) == 4 {
+					u, ok := args[1].(*ssa.UnOp)
+					if !ok || u.Op != token.MUL {
+						continue
+					}
+					ia, ok := u.X.(*ssa.IndexAddr)
+					if !ok {
+						continue
+					}
+					par, ok := ia.X.(*ssa.Parameter)
+					if !ok || ls[par] == "" {
+						continue
+					}
+					k, isK := an.ConstOf(args[3])
+					if !isK {
+						continue
+					}
+					want := kBlock
+					if ls[par] == "want-have" {
+						want = kHave
+					}
+					c.Check(constant.Compare(k, token.EQL, want), "O3", "R-TABLE", api, "recorded-type-of-"+ls[par]+"-list", call.Pos(),
+						"keys of the "+ls[par]+" list are recorded with that want type",
+						api+" records the keys of its "+ls[par]+" list with the other want type: the peer is asked for HAVE where a block was requested (the strongest requested type is never sent) or vice versa")
+					continue
+				}
+				if depth >= 1 || g.Blocks == nil || g.Pkg != fn.Pkg {
+					continue
+				}
+				sub := lists{}
+				for i, a := range args {
+					if par, ok := a.(*ssa.Parameter); ok && ls[par] != "" && i < len(g.Params) {
+						sub[g.Params[i]] = ls[par]
+					}
+				}
+				if len(sub) > 0 {
+					visit(g, sub, api, depth+1)
+				}
+			}
+		}
+		if aw := p.Func(c35MQ, "MessageQueue", "AddWants"); aw != nil && len(aw.Params) == 3 {
+			visit(aw, lists{aw.Params[1]: "want-block", aw.Params[2]: "want-have"}, an.FuncName(aw), 0)
+		}
+		if ab := p.Func(c35MQ, "MessageQueue", "AddBroadcastWantHaves"); ab != nil && len(ab.Params) == 2 {
+			visit(ab, lists{ab.Params[1]: "want-have"}, an.FuncName(ab), 0)
+		}
+	}
 	// edges on which "subject == k" is known false, for subject satisfying pred
 	neqEdges := func(fn *ssa.Function, pred func(ssa.Value) bool, k constant.Value) an.EdgeSet {
 		return an.CondEdges(fn, func(atom ssa.Value) (bool, bool) {
@@ -1634,6 +1701,19 @@ func runC35Wantlist(c *an.Ctx) {
 		absent := foundEdges(add, false)
 		q1 := absent.Union(neqEdges(add, isExistingType(add), kBlock))
 		q2 := absent.Union(neqEdges(add, isParamType(add), kHave))
+		// the upgrade itself: an entry that is present (as want-have) can still be replaced (by a want-block)
+		if len(puts) > 0 && len(add.Blocks) > 0 && len(add.Blocks[0].Instrs) > 0 {
+			first := add.Blocks[0].Instrs[0]
+			up := false
+			for _, s := range puts {
+				if s == first || an.Reaches(add, first, s, absent, nil) {
+					up = true
+				}
+			}
+			c.Check(up, "O5", "R-EXH", an.FuncName(add), "present-entry-can-be-upgraded", add.Pos(),
+				"Add can replace an entry that is already present (want-have upgraded to want-block)",
+				"Wantlist.Add never replaces an entry that is already present: a want-block requested after a want-have for the same CID is dropped, the peer is never sent the strongest requested type")
+		}
 		for _, s := range puts {
 			c.Check(an.GuardedBy(add, nil, s, q1), "O5", "R-CMP", an.FuncName(add), "put<=absent|existing!=Block", s.Pos(),
 				"an existing want-block is never overwritten", "Wantlist.Add can overwrite an existing want-block entry (the put is reachable where the CID is present with type Block): a want-have downgrades a want-block, the strongest requested type is lost")
